@@ -1,5 +1,6 @@
 import MaestroVerif.Lemmas.CsvLemmas
 import MaestroVerif.Lemmas.LockLemmas
+import MaestroVerif.Lemmas.DagWalk
 
 /-!
 # C12 — The status table is complete, consistent and always readable
@@ -170,5 +171,39 @@ a schedule exists in which a read observes the torn table - the invariant of `C1
 theorem C12_unlink_breaks_exclusion :
     Lock.File.torn ∈ (Lock.runU { s := Lock.init, gone := false } Lock.tornSchedule).s.reads := by decide
 
+
+section rows
+open MaestroVerif.Dag
+
+/-- **the status table has one row per reachable instance**: `status_subtree` - the order in which
+`write_status` emits the rows - lists exactly the nodes reachable from `_source`, other than
+`_source`, each once, for every well-formed graph -/
+theorem C12_rows_are_the_reachable_instances (g : Dag) (wf : WF g) :
+    ∃ l, statusOrder g = some l ∧ l.Nodup ∧ ∀ x, x ∈ l ↔ (Reach g 0 x ∧ x ≠ 0) := by
+  cases h : bfs g 0 with
+  | none => exact absurd h (bfs_fuel g wf 0)
+  | some l =>
+    obtain ⟨h1, h2⟩ := bfs_spec g 0 h
+    refine ⟨l.filter (· != 0), by simp [statusOrder, h], h1.filter _, ?_⟩
+    intro x
+    simp only [List.mem_filter, h2, bne_iff_ne, ne_eq]
+
+/-- **… and that is every instance** when every node hangs below `_source` (what `Study.stage`
+builds: a step without dependencies is connected to `_source`, C08) -/
+theorem C12_one_row_per_instance (g : Dag) (wf : WF g) (h0 : 0 ∈ g.nodes)
+    (hreach : ∀ x, x ∈ g.nodes → Reach g 0 x) :
+    ∃ l, statusOrder g = some l ∧ l.Nodup ∧ ∀ x, x ∈ l ↔ (x ∈ g.nodes ∧ x ≠ 0) := by
+  obtain ⟨l, h1, h2, h3⟩ := C12_rows_are_the_reachable_instances g wf
+  refine ⟨l, h1, h2, fun x => ?_⟩
+  rw [h3]
+  constructor
+  · rintro ⟨hr, hx⟩; exact ⟨reach_in_nodes wf hr h0, hx⟩
+  · rintro ⟨hn, hx⟩; exact ⟨hreach x hn, hx⟩
+
+/-! non-vacuity: a diamond below `_source` -/
+example : statusOrder { nodes := [0, 1, 2, 3, 4], adj := fun x => if x = 0 then [1, 2] else if x = 1 then [3] else if x = 2 then [3] else if x = 3 then [4] else [] } = some [1, 2, 3, 4] := by
+  decide +kernel
+
+end rows
 
 end MaestroVerif.C12
